@@ -84,7 +84,7 @@ GenVal(t) ==
 Gen(id) ==
   LET st == GenStruct("Sa" \o id)
       en == GenEnum("Ea" \o id, Scalars \o <<st>>)
-      atoms == Scalars \o Scalars \o <<st, en>>
+      atoms == Scalars \o <<st, en>>
       n == PickSeq(<<0, 1, 1, 1, 2, 2, 2, 3, 3>>)
       args == SeqGen(n, LAMBDA j : GenSlot(2, atoms, 1, 10))
       sig == [name |-> "hf" \o id, camel |-> "Hf" \o id, args |-> args, retvoid |-> Chance(1, 7)]
